@@ -1,0 +1,50 @@
+//go:build verif
+// +build verif
+
+package trie
+
+import "github.com/youchainhq/go-youchain/common"
+
+// Verification hook for property C13 (read-only): exposes the reference-counting state of the trie
+// node cache so that a harness can compare it with a formal model after every operation.
+// Compiled only with -tags verif.
+
+// VerifC13Node is one cached node as the Database tracks it.
+type VerifC13Node struct {
+	Hash    common.Hash
+	Parents uint16
+	Size    uint16
+	Kids    []common.Hash          // hash children inside the collapsed node, in order, with multiplicity
+	Ext     map[common.Hash]uint16 // explicit (external) children
+}
+
+// VerifC13Dump walks the flush-list from oldest to newest. mapped is the number of cached nodes in
+// the node map (without the meta root); a difference from len(nodes) means the flush-list and the
+// map disagree.
+func (db *Database) VerifC13Dump() (nodes []VerifC13Node, meta map[common.Hash]uint16, mapped int) {
+	db.lock.RLock()
+	defer db.lock.RUnlock()
+
+	seen := make(map[common.Hash]bool)
+	for h := db.oldest; h != (common.Hash{}); {
+		n, ok := db.nodes[h]
+		if !ok || seen[h] {
+			break
+		}
+		seen[h] = true
+		v := VerifC13Node{Hash: h, Parents: n.parents, Size: n.size, Ext: map[common.Hash]uint16{}}
+		if _, raw := n.node.(rawNode); !raw {
+			gatherChildren(n.node, &v.Kids)
+		}
+		for c, k := range n.children {
+			v.Ext[c] = k
+		}
+		nodes = append(nodes, v)
+		h = n.flushNext
+	}
+	meta = make(map[common.Hash]uint16)
+	for c, k := range db.nodes[common.Hash{}].children {
+		meta[c] = k
+	}
+	return nodes, meta, len(db.nodes) - 1
+}
